@@ -77,6 +77,39 @@ theorem fresh_default (len ranks : Nat) (dv : α) (hr : 0 < ranks) :
   · intro r hrr
     simp [presentedValues, fresh, List.getElem?_range hrr]
 
+/-! ## resize -/
+
+/-- after an explicit `resize` the array is well-formed for the NEW length (whatever it was before):
+every theorem below applies to updates issued right after it -/
+theorem resize_wf (a : Arr α) (newLen : Nat) (fill : α) :
+    WF (resize a newLen fill) ∧ (resize a newLen fill).len = newLen ∧ (resize a newLen fill).ranks = a.ranks := by
+  refine ⟨⟨by simp [resize], ?_⟩, rfl, rfl⟩
+  intro r hr
+  have hr' : r < a.ranks := hr
+  simp only [resize, List.getElem?_map, List.getElem?_range hr', Option.map_some, List.length_append,
+    List.length_take, List.length_replicate]
+  congr 1
+  omega
+
+/-- what `resize` keeps: slot `l` of rank `r` holds what it held locally before, or the fill value if the
+local vector was shorter (`std::vector::resize`) -/
+theorem resize_slots (a : Arr α) (newLen : Nat) (fill : α) (r l : Nat) (hr : r < a.ranks)
+    (hl : l < localSize newLen a.ranks r) :
+    slot (resize a newLen fill) r l =
+      if l < (a.vecs.getD r []).length then (a.vecs.getD r [])[l]? else some fill := by
+  simp only [slot, resize, List.getElem?_map, List.getElem?_range hr, Option.map_some, Option.bind_some]
+  generalize a.vecs.getD r [] = old
+  by_cases h : l < old.length
+  · rw [if_pos h, List.getElem?_append_left (by rw [List.length_take]; omega), List.getElem?_take, if_pos hl]
+  · rw [if_neg h, List.getElem?_append_right (by rw [List.length_take]; omega), List.length_take,
+      List.getElem?_replicate, if_pos (by omega)]
+
+/-- a length below the number of ranks, and a changed remainder: 7 elements on 3 ranks (3,2,2) resized to 2
+(1,1,0) and to 8 (3,3,2); local prefixes are kept, new slots get the fill value -/
+example : (resize ({ len := 7, ranks := 3, dv := 0, vecs := [[1, 2, 3], [4, 5], [6, 7]] } : Arr Nat) 2 9).vecs = [[1], [4], []] ∧
+    (resize ({ len := 7, ranks := 3, dv := 0, vecs := [[1, 2, 3], [4, 5], [6, 7]] } : Arr Nat) 8 9).vecs = [[1, 2, 3], [4, 5, 9], [6, 7]] := by
+  decide
+
 /-! ## one update -/
 
 /-- a legal update on a well-formed array is executed (no trap in `owner`, no assertion in the handler)
